@@ -70,12 +70,24 @@ class SoloWorld:
         self.tie = tie          # +1: equal deadlines fire FIFO, -1: LIFO
         self.idle_hook = None   # optional callable(loop) -> bool (True = retry)
         self.exc_log = []       # loop exception-handler contexts
+        # "time creeps": real loops spend time between iterations. When armed with k, the k-th
+        # non-blocking poll from now jumps the clock to the next armed timer - i.e. whatever was
+        # submitted k iterations ago arrived less than k iterations before that deadline.
+        self.creep_in = None
 
     def select(self, loop, timeout):
         if timeout is None:
             if self.idle_hook is not None and self.idle_hook(loop):
                 return []
             raise IdleForever()
+        if timeout <= 0 and self.creep_in is not None:
+            self.creep_in -= 1
+            if self.creep_in <= 0:
+                self.creep_in = None
+                sched = loop._scheduled
+                if sched and sched[0]._when - self.now <= 2 * EPS:     # only a deadline that is imminent
+                    self.now = max(self.now, sched[0]._when)
+            return []
         if timeout > 0:
             sched = loop._scheduled
             target = self.now + timeout
